@@ -75,10 +75,30 @@ pub fn sub_alphabets(thorough: bool) -> Vec<(&'static str, Vec<BOp>, usize)> {
     let steps: Vec<BOp> = full.iter().copied().filter(|o| matches!(o, BOp::Max(_) | BOp::Min(_))).collect();
     let times: Vec<BOp> = full.iter().copied().filter(|o| matches!(o, BOp::Start(_) | BOp::End(_))).collect();
     let tol: Vec<BOp> = full.iter().copied().filter(|o| matches!(o, BOp::Tol(_))).collect();
+    // magnitudes near the ends of the double range: valid values whose sums, differences,
+    // squares or products overflow or underflow
+    let magnitudes = vec![
+        BOp::Tol(1e-300),
+        BOp::Tol(1e300),
+        BOp::Max(1e300),
+        BOp::Max(1e-300),
+        BOp::Max(0.5),
+        BOp::Min(1e300),
+        BOp::Min(1e-300),
+        BOp::Min(1e-3),
+        BOp::Start(-1e300),
+        BOp::Start(1e300),
+        BOp::Start(0.0),
+        BOp::End(1e300),
+        BOp::End(-1e300),
+        BOp::End(1.0),
+        BOp::End(5e-324),
+    ];
     vec![
         ("step-bounds", steps, if thorough { 7 } else { 6 }),
-        ("times", times, if thorough { 8 } else { 7 }),
+        ("times", times, if thorough { 8 } else { 6 }),
         ("tolerance", tol, 6),
+        ("extreme-magnitude", magnitudes, if thorough { 5 } else { 4 }),
     ]
 }
 
@@ -211,8 +231,9 @@ fn completion(ctor: &BOp, ops: &[BOp], dim: DimMode, euler: bool) -> ([BOp; 7], 
     let start = match (m.start, m.end) {
         (Some(s), _) => s,
         (None, Some(e)) => {
-            push(BOp::Start(e - 1.0));
-            e - 1.0
+            let st = if e.abs() < 1e15 { e - 1.0 } else if e > 0.0 { e / 2.0 } else { e * 2.0 };
+            push(BOp::Start(st));
+            st
         }
         (None, None) => {
             push(BOp::Start(0.0));
@@ -220,7 +241,8 @@ fn completion(ctor: &BOp, ops: &[BOp], dim: DimMode, euler: bool) -> ([BOp; 7], 
         }
     };
     if m.end.is_none() {
-        push(BOp::End(start + 1.0));
+        // strictly after the start also when the start is so large that start + 1 == start
+        push(BOp::End(if start.abs() < 1e15 { start + 1.0 } else if start > 0.0 { start * 2.0 } else { start / 2.0 }));
     }
     if !m.ic {
         push(BOp::IcSlice);
